@@ -197,10 +197,11 @@ class Lang:
         self._s[key] = r
         return r
 
-    def sentence(self):
+    def sentence(self, start=None):
+        start = start or self.start
         alts = []
         for L in range(0, self.N + 1):
-            d = self.derives(self.start, 0, L)
+            d = self.derives(start, 0, L)
             if z3.is_false(d):
                 continue
             alts.append(z3.And(self.n == L, d))
